@@ -59,6 +59,7 @@ SIM_RUNS = [  # (module, cfg, kind, behaviours quick, behaviours thorough, depth
     ("ContainersExtRelMap", "GenContainersExtRelMap.cfg", "xrelmap", 300, 6000, 9),
     ("ContainersExtStash", "GenContainersExtStash.cfg", "xstash", 100, 1500, 23),
     ("ContainersExtStash", "GenContainersExtStashAuto.cfg", "xstash", 400, 6000, 47),
+    ("ContainersExtStash", "GenContainersExtStashRatio.cfg", "xstash", 80, 700, 85),
 ]
 GEN_RUNS = [  # breadth first, both tiers: the empty stash and every single call, x 3 builders x moved or not
     ("ContainersExtRelMap", "GenContainersExtRelMap1.cfg", "xrelmap"),
@@ -67,6 +68,7 @@ GEN_RUNS_THOROUGH = [  # every stash made by two calls
     ("ContainersExtRelMap", "GenContainersExtRelMap2.cfg", "xrelmap"),
 ]
 AUTO_CFG = "GenContainersExtStashAuto.cfg"
+RATIO_CFG = "GenContainersExtStashRatio.cfg"
 
 _early = {}
 
@@ -108,11 +110,50 @@ def _run_job(ctx, j):
     else:
         # TLC generates num behaviours per worker
         r = vlib.tlc(j["mod"], j["cfg"], workers=2, simulate=max(1, j["n"] // 2), depth=j["depth"], seed=ctx.seed, timeout=900, tag=tag)
+        for attempt in range(1, 5):
+            if r.error or r.violation or not _wanted_missing(j["cfg"], r.cases):
+                break
+            r2 = vlib.tlc(j["mod"], j["cfg"], workers=2, simulate=max(1, j["n"] // 2), depth=j["depth"], seed=ctx.seed + 7919 * attempt,
+                          timeout=900, tag=tag)
+            r2.cases = r.cases + r2.cases
+            r2.generated += r.generated
+            r2.wall += r.wall
+            r = r2
     return j, r
 
 
 def _auto(p):
     return set(s.get("auto", "no") for s in p["steps"]) - {"no"}
+
+
+def _ratio_events(p):
+    """add_item() steps taken with the buffer full and >= GCMin removed items: ('gc', margin) if it collected, ('grow', margin) if
+    the ratio of removed to live items was too low and the buffer doubled instead; margin = distance of 5 * removed from live."""
+    out = []
+    prev = None
+    for s in p["steps"]:
+        if prev is not None and s["a"] == "add_item" and prev["removed"] >= p["gcmin"]:
+            if s["auto"] != "no":
+                out.append(("gc", prev["removed"] * 5 - prev["size"]))
+            elif s["cap"] > prev["cap"]:
+                out.append(("grow", prev["size"] - prev["removed"] * 5))
+        prev = s
+    return out
+
+
+def _ratio(p):
+    return set(e[0] for e in _ratio_events(p))
+
+
+def _wanted_missing(cfg, payloads):
+    """Simulation is random: which kinds of history a run must have produced (the run is repeated with another seed if not)."""
+    if cfg == AUTO_CFG:
+        got = set().union(*[_auto(p) for p in payloads]) if payloads else set()
+        return {"full", "mid"} - got
+    if cfg == RATIO_CFG:
+        got = set().union(*[_ratio(p) for p in payloads]) if payloads else set()
+        return {"gc", "grow"} - got
+    return set()
 
 
 def _make_cases(ctx, j, payloads, rng):
@@ -130,6 +171,14 @@ def _make_cases(ctx, j, payloads, rng):
         for p in rng.sample(rest, min(cap[1], len(rest))):
             keep[json.dumps(p, sort_keys=True)] = p
         payloads = list(keep.values())
+    elif j["cfg"] == RATIO_CFG:
+        cap = 2 if quick else 60
+        # the histories that come closest to the threshold from either side first
+        def margin(p, kind):
+            return min(m for k, m in _ratio_events(p) if k == kind)
+        gc = sorted([p for p in payloads if "gc" in _ratio(p)], key=lambda p: margin(p, "gc"))
+        grow = sorted([p for p in payloads if "grow" in _ratio(p)], key=lambda p: margin(p, "grow"))
+        payloads = list({json.dumps(p, sort_keys=True): p for p in gc[:cap] + grow[:cap]}.values())
     out = []
     seen = set()
     n = 0
@@ -142,7 +191,7 @@ def _make_cases(ctx, j, payloads, rng):
             variants = ["u32low", "u64low"]
             if n % 4 == 0:
                 variants.append("u32mid")
-            if n % (12 if quick else 4) == 1:         # 4 MiB chunks: walking them costs
+            if n % (4 if quick else 2) == 1:
                 variants += ["u32top", "u64big"]
         elif fam == "xsmall":
             variants = ["u64", "u32"]
@@ -214,6 +263,7 @@ def _replay(ctx, cases, builds=("ndebug", "assert")):
 def _evals(c):
     k = c["kind"]
     n = 0
+    pcap, pgcs = c.get("cap0"), 0
     for s in c["steps"]:
         if k == "xdense":
             n += 1 + sum(5 + len(s[v]["iter"]) for v in ("va", "vb") if not s[v]["mv"])
@@ -224,7 +274,14 @@ def _evals(c):
         elif k == "xrelmap":
             n += 4
         else:
-            n += 4 + sum(b["k"] for b in s["live"] if b["size"])
+            live = [b for b in s["live"] if b["size"]]
+            total = sum(b["k"] for b in live)
+            moved = s["cap"] != pcap or s["gcs"] != pgcs
+            pcap, pgcs = s["cap"], s["gcs"]
+            if total <= 20000 or moved or s is c["steps"][-1]:
+                n += 4 + total               # every live item resolved and compared
+            else:                            # long history, nothing can have moved: a sample of every block
+                n += 4 + sum(min(b["k"], 2 + b["k"] // 50) for b in live) + (live[-1]["k"] if s["a"] == "add_item" and live else 0)
     if k == "xrelmap":
         n += (2 if c["phase"] == "both" else 1) * (2 + len(c["probes"]))
     return n
@@ -238,6 +295,7 @@ def _steps_seen(cases):
     for c in cases:
         k = c["kind"]
         prev_cap = c.get("cap0")
+        prev_step = None
         cleared = False
         for s in c["steps"]:
             hit("%s:%s" % (k, s["a"]))
@@ -252,6 +310,9 @@ def _steps_seen(cases):
             elif k == "xstash":
                 if s["auto"] != "no":
                     hit("xstash:auto:" + s["auto"])
+                for kind in (_ratio({"gcmin": c["gcmin"], "steps": [prev_step, s]}) if prev_step is not None else ()):
+                    hit("xstash:ratio:" + kind)
+                prev_step = s
                 if s["cap"] > prev_cap:
                     hit("xstash:growth")
                 prev_cap = s["cap"]
@@ -276,7 +337,7 @@ NEED = (["xdense:" + a for a in ("check_and_set", "unset", "get", "clear", "copy
         ["xrelmap:add", "xrelmap:add_members", "xrelmap:move_stash", "xrelmap:empty_stash", "xrelmap:mixed:both", "xrelmap:mixed:m2p", "xrelmap:mixed:p2m"] +
         ["xrelmap:%s:%s" % (p, m) for p in ("m2p", "p2m", "both") for m in ("moved", "direct")] +
         ["xstash:add_item", "xstash:remove_item", "xstash:garbage_collect", "xstash:clear", "xstash:add_after_clear", "xstash:growth",
-         "xstash:auto:full", "xstash:auto:mid"])
+         "xstash:auto:full", "xstash:auto:mid", "xstash:ratio:gc", "xstash:ratio:grow"])
 
 
 def run_part(ctx):
